@@ -150,7 +150,10 @@ func receivedSecrets(c mcase, lines []hdr) map[string][]string {
 	return out
 }
 
-type finding struct{ Key, Msg string }
+type finding struct {
+	Key, Msg string
+	Foreign  []string // header-foreign only: the names that do not belong to this message
+}
 
 // comparePayload returns "" when got is byte-identical to want.
 func comparePayload(want, got []byte) string {
@@ -172,8 +175,22 @@ func short(b []byte) string {
 	return "0x" + hex.EncodeToString(b[:12]) + ".." + hex.EncodeToString(b[len(b)-8:])
 }
 
-// compareHeaders checks an observed header map. exact: the map (minus framing
-// names) must equal the reference; otherwise the reference must be contained.
+// deliverersOwn is the fixed set of header names the push deliverer / HTTP
+// transport may put on a delivery by itself (http_deliverer.go: the configured
+// signing headers, defaults below; net/http transport: User-Agent,
+// Accept-Encoding, framing; tracing transport: W3C trace context; a content
+// type default). Everything else on a push request must be a stored header of
+// THIS message.
+var deliverersOwn = map[string]bool{
+	"User-Agent": true, "Accept-Encoding": true, "Content-Type": true,
+	"X-Hookaido-Signature": true, "X-Hookaido-Timestamp": true,
+	"Traceparent": true, "Tracestate": true, "Baggage": true,
+}
+
+// compareHeaders checks an observed header map. exact (stored headers: pull,
+// admin list): the map minus framing names must equal the reference. Otherwise
+// (request seen by the push target): every reference header must be there with
+// its value, and every other header must be framing or one of deliverersOwn.
 // got maps a name to the list of values seen under it.
 func compareHeaders(c mcase, lines []hdr, got map[string][]string, exact bool) []finding {
 	var out []finding
@@ -191,9 +208,9 @@ func compareHeaders(c mcase, lines []hdr, got map[string][]string, exact bool) [
 		v, present := obs[name]
 		switch {
 		case present && exact: // the stored map must not contain the name at all
-			out = append(out, finding{"sensitive-persisted:" + name, fmt.Sprintf("header %s received at ingress with %q is present in the stored headers as %q", name, secrets[name], v)})
+			out = append(out, finding{Key: "sensitive-persisted:" + name, Msg: fmt.Sprintf("header %s received at ingress with %q is present in the stored headers as %q", name, secrets[name], v)})
 		case present && anyLeak(v, secrets[name]):
-			out = append(out, finding{"sensitive-passed-on:" + name, fmt.Sprintf("header %s received at ingress with %q reached the push target as %q", name, secrets[name], v)})
+			out = append(out, finding{Key: "sensitive-passed-on:" + name, Msg: fmt.Sprintf("header %s received at ingress with %q reached the push target as %q", name, secrets[name], v)})
 		}
 	}
 	want := refHeaders(c, lines)
@@ -206,9 +223,9 @@ func compareHeaders(c mcase, lines []hdr, got map[string][]string, exact bool) [
 		v, ok := obs[n]
 		switch {
 		case !ok:
-			out = append(out, finding{"header-missing:" + n, fmt.Sprintf("received header %s: %q did not reach the consumer (got %v)", n, want[n], got)})
+			out = append(out, finding{Key: "header-missing:" + n, Msg: fmt.Sprintf("received header %s: %q did not reach the consumer (got %v)", n, want[n], got)})
 		case len(v) != 1 || v[0] != want[n]:
-			out = append(out, finding{"header-value:" + n, fmt.Sprintf("header %s: reference %q, consumer got %q", n, want[n], v)})
+			out = append(out, finding{Key: "header-value:" + n, Msg: fmt.Sprintf("header %s: reference %q, consumer got %q", n, want[n], v)})
 		}
 	}
 	if exact {
@@ -222,8 +239,28 @@ func compareHeaders(c mcase, lines []hdr, got map[string][]string, exact bool) [
 		}
 		sort.Strings(extra)
 		for _, n := range extra {
-			out = append(out, finding{"header-extra:" + n, fmt.Sprintf("stored headers contain %s: %q which was neither received nor a configured copy header", n, obs[n])})
+			out = append(out, finding{Key: "header-extra:" + n, Msg: fmt.Sprintf("stored headers contain %s: %q which was neither received nor a configured copy header", n, obs[n])})
 		}
+		return out
+	}
+	var foreign, show []string
+	for n := range obs {
+		_, wanted := want[n]
+		if wanted || framing[n] || deliverersOwn[n] {
+			continue
+		}
+		if sec, ok := secrets[n]; ok && anyLeak(obs[n], sec) {
+			continue // already reported as sensitive-passed-on
+		}
+		foreign = append(foreign, n)
+	}
+	sort.Strings(foreign)
+	for _, n := range foreign {
+		show = append(show, fmt.Sprintf("%s: %q", n, obs[n]))
+	}
+	if len(foreign) > 0 {
+		out = append(out, finding{Key: "header-foreign", Foreign: foreign, Msg: fmt.Sprintf("the push request carries headers that are neither stored headers of this message (%v) nor the deliverer's own: %s",
+			want, strings.Join(show, "; "))})
 	}
 	return out
 }
